@@ -91,7 +91,7 @@ def draws(detector, fail=False, **kwargs):
 STAMPS = []
 
 
-def stamp(detector, narrow_from=None, **kwargs):
+def stamp(detector, narrow_from=None, dark_steps=None, **kwargs):
     """Writes step-dependent values into every bucket and remembers them (C03 replays). From step `narrow_from` on the float buckets are
     written in single precision (values that binary32 cannot hold exactly are used throughout)."""
     import numpy as np
@@ -106,7 +106,8 @@ def stamp(detector, narrow_from=None, **kwargs):
     detector.pixel.array = np.full(shape, 20.0 + i + off).astype(ft)
     detector.signal.array = np.full(shape, 0.5 + i + off).astype(ft)
     detector.image.array = np.full(shape, 30 + i, dtype=np.uint16)
-    detector.charge.add_charge_array(np.full(shape, 40.0 + i))      # in place, as the charge-generation models do
+    if dark_steps is None or i not in dark_steps:                   # a dark step: no charge at all is generated (the bucket stays all zero)
+        detector.charge.add_charge_array(np.full(shape, 40.0 + i))  # in place, as the charge-generation models do
     STAMPS.append({n: np.array(getattr(detector, n).array) for n in ("photon", "pixel", "signal", "image", "charge")})
 
 
